@@ -45,7 +45,7 @@ def cases(tier, seed):
     excs = [[], ['/app/lib'], ['/app/lib', '/applib'], ['/app']]
     roots = ['', '/app']
     for inc, exc, root in itertools.product(range(4), range(4), range(2)):
-        for form in ('list', 'codestr', 'env'):
+        for form in ('list', 'codestr', 'env', 'codestr-gaps', 'env-gaps'):     # -gaps: a trailing comma and a doubled comma in the text
             out.append({'k': 'frames', 'inc': incs[inc], 'exc': excs[exc], 'root': roots[root], 'form': form})
     return out
 
@@ -282,21 +282,27 @@ def ref_classify(path, inc, exc, root):
 def case_frames(ctx, desc):
     from deep.processor.frame_collector import FrameCollector
     inc, exc, root, form = desc['inc'], desc['exc'], desc['root'], desc['form']
+    gaps = form.endswith('-gaps')
+
+    def text(items):
+        return (',,'.join(items) + ',') if gaps else ','.join(items)
+    form = form.replace('-gaps', '')
     if form == 'list':
         custom, env = {'IN_APP_INCLUDE': list(inc), 'IN_APP_EXCLUDE': list(exc) + [sys.exec_prefix], 'APP_ROOT': root}, {}
     elif form == 'codestr':
         # the documented form: "a string of comma separated values"
         custom, env = {'APP_ROOT': root}, {}
         if inc:
-            custom['IN_APP_INCLUDE'] = ','.join(inc)
+            custom['IN_APP_INCLUDE'] = text(inc)
         if exc:
-            custom['IN_APP_EXCLUDE'] = ','.join(exc + [sys.exec_prefix])
+            custom['IN_APP_EXCLUDE'] = text(exc + [sys.exec_prefix])
     else:
         custom = {'APP_ROOT': root}
-        env = {'DEEP_IN_APP_INCLUDE': ','.join(inc) if inc else None, 'DEEP_IN_APP_EXCLUDE': ','.join(exc) if exc else None}
+        env = {'DEEP_IN_APP_INCLUDE': text(inc) if inc else None, 'DEEP_IN_APP_EXCLUDE': text(exc) if exc else None}
     ctx.case()
     if inc or exc:
         ctx.nt(('frames', str(inc), str(exc), root, form))
+    form = desc['form']
     with Env(env):
         from deep.config import ConfigService
         from deep.config.tracepoint_config import TracepointConfigService
